@@ -67,7 +67,7 @@ pub enum Ev {
     Order(usize, Vec<Acc>),
     /// client workload: r×k by k×c matrix product through `quire_dot` (does not touch the
     /// history's quire; every output element is its own cleared-quire history)
-    MatDot { r: usize, k: usize, c: usize, a: Vec<u32>, b: Vec<u32> },
+    MatDot { r: usize, k: usize, c: usize, la: u8, lb: u8, a: Vec<u32>, b: Vec<u32> },
 }
 
 impl Ev {
@@ -107,8 +107,8 @@ impl Ev {
             }
             Ev::Split2 => "split2".into(),
             Ev::Split3 => "split3".into(),
-            Ev::MatDot { r, k, c, a, b } => {
-                let mut s = format!("matdot {r} {k} {c} a");
+            Ev::MatDot { r, k, c, la, lb, a, b } => {
+                let mut s = format!("matdot {r} {k} {c} {la} {lb} a");
                 for x in a {
                     s.push_str(&format!(" {:x}", x));
                 }
@@ -158,19 +158,21 @@ impl Ev {
                 Ok(Ev::Inject(img))
             }
             "matdot" => {
-                if tok.len() < 6 {
+                if tok.len() < 8 {
                     return Err("matdot: too short".into());
                 }
                 let r: usize = tok[1].parse().map_err(|_| "matdot: bad r")?;
                 let k: usize = tok[2].parse().map_err(|_| "matdot: bad k")?;
                 let c: usize = tok[3].parse().map_err(|_| "matdot: bad c")?;
-                if tok[4] != "a" || tok.len() != 6 + r * k + k * c || tok[5 + r * k] != "b" {
+                let la: u8 = tok[4].parse().map_err(|_| "matdot: bad la")?;
+                let lb: u8 = tok[5].parse().map_err(|_| "matdot: bad lb")?;
+                if tok[6] != "a" || tok.len() != 8 + r * k + k * c || tok[7 + r * k] != "b" {
                     return Err("matdot: bad layout".into());
                 }
                 let hx = |t: &&str| u32::from_str_radix(t, 16).map_err(|e| e.to_string());
-                let a: Result<Vec<u32>, String> = tok[5..5 + r * k].iter().map(hx).collect();
-                let b: Result<Vec<u32>, String> = tok[6 + r * k..].iter().map(hx).collect();
-                Ok(Ev::MatDot { r, k, c, a: a?, b: b? })
+                let a: Result<Vec<u32>, String> = tok[7..7 + r * k].iter().map(hx).collect();
+                let b: Result<Vec<u32>, String> = tok[8 + r * k..].iter().map(hx).collect();
+                Ok(Ev::MatDot { r, k, c, la, lb, a: a?, b: b? })
             }
             "split2" => Ok(Ev::Split2),
             "split3" => Ok(Ev::Split3),
